@@ -293,6 +293,11 @@ fn b_tval<K: Fam>(b: &mut enr::Builder<K>, key: &[u8], v: &TVal) {
 }
 
 pub fn run_builder<K: Fam>(calls: &[BCall], key: &K) -> Result<Result<Enr<K>, EnrError>, String> {
+    run_builder2::<K>(calls, None, key)
+}
+
+/// `first`: build once with this key before the build that counts (builder reuse)
+pub fn run_builder2<K: Fam>(calls: &[BCall], first: Option<&K>, key: &K) -> Result<Result<Enr<K>, EnrError>, String> {
     guarded(|| {
         let mut b = Enr::<K>::builder();
         for c in calls {
@@ -326,6 +331,9 @@ pub fn run_builder<K: Fam>(calls: &[BCall], key: &K) -> Result<Result<Enr<K>, En
                 }
             }
         }
+        if let Some(f) = first {
+            let _ = b.build(f);
+        }
         b.build(key)
     })
 }
@@ -342,6 +350,8 @@ pub fn decoded_init_bytes(fam: FamId, secret: &[u8; 32], seq: u64, pairs: &[(Vec
 }
 
 pub struct KeyInfo {
+    /// family (for CombinedKey: the variant) this key signs with
+    pub fam: FamId,
     pub secret: [u8; 32],
     /// reference-derived public key bytes as stored in a record
     pub pk: Vec<u8>,
@@ -370,6 +380,10 @@ impl<'a, K: Fam> StepCx<'a, K> {
     pub fn fam(&self) -> FamId {
         self.h.fam
     }
+    /// family (CombinedKey variant) of the key that signs this step
+    pub fn signer_fam(&self) -> FamId {
+        self.signer().map(|k| k.fam).unwrap_or(self.h.fam)
+    }
 }
 
 pub trait Visitor {
@@ -389,19 +403,42 @@ pub struct HistOutcome {
 
 fn run_typed<K: Fam, V: Visitor>(h: &History, v: &mut V) -> Result<HistOutcome, String> {
     let mut out = HistOutcome::default();
-    if h.keys.is_empty() || h.keys.iter().any(|s| !h.fam.secret_ok(&s.0)) {
+    let fam_of = |i: usize| -> FamId {
+        if h.alt_keys.contains(&i) {
+            match h.fam {
+                FamId::CombinedSecp => FamId::CombinedEd,
+                FamId::CombinedEd => FamId::CombinedSecp,
+                f => f,
+            }
+        } else {
+            h.fam
+        }
+    };
+    if h.keys.is_empty() || h.keys.iter().enumerate().any(|(i, s)| !fam_of(i).secret_ok(&s.0)) || h.alt_keys.contains(&0) {
         out.aborted = Some("invalid key list".into());
         return Ok(out);
     }
     let infos: Vec<KeyInfo> = h
         .keys
         .iter()
-        .map(|s| KeyInfo { secret: s.0, pk: h.fam.ref_pk(&s.0) })
+        .enumerate()
+        .map(|(i, s)| KeyInfo { fam: fam_of(i), secret: s.0, pk: fam_of(i).ref_pk(&s.0) })
         .collect();
-    let real: Vec<K> = h.keys.iter().map(|s| K::make(h.fam, &s.0)).collect();
+    let real: Vec<K> = h.keys.iter().enumerate().map(|(i, s)| K::make(fam_of(i), &s.0)).collect();
     keys::fault_reset(h.fault_at);
     // initial record
     let (res, enr): (CallRes, Option<Enr<K>>) = match &h.init {
+        // `Enr::empty` is the documented shorthand for a builder without calls
+        Init::Builder { calls } if calls.is_empty() && h.ops.len() % 2 == 1 => match guarded(|| Enr::<K>::empty(&real[0])) {
+            Ok(Ok(e)) => (CallRes::Ok(Ret::Unit), Some(e)),
+            Ok(Err(e)) => (CallRes::Err(ek_of(&e), format!("{e:?}")), None),
+            Err(p) => (CallRes::Panic(p), None),
+        },
+        Init::BuilderReuse { calls, first } => match run_builder2::<K>(calls, real.get(*first), &real[0]) {
+            Ok(Ok(e)) => (CallRes::Ok(Ret::Unit), Some(e)),
+            Ok(Err(e)) => (CallRes::Err(ek_of(&e), format!("{e:?}")), None),
+            Err(p) => (CallRes::Panic(p), None),
+        },
         Init::Builder { calls } => match run_builder::<K>(calls, &real[0]) {
             Ok(Ok(e)) => (CallRes::Ok(Ret::Unit), Some(e)),
             Ok(Err(e)) => (CallRes::Err(ek_of(&e), format!("{e:?}")), None),
